@@ -10,3 +10,4 @@ open Just.Props.C18
 #print axioms missing_error_iff_required
 #print axioms environment_wins
 #print axioms new_entries_visible
+#print axioms default_name_is_documented
